@@ -10,6 +10,9 @@
 //	                lists of depth <= 2; opaque composites of Sig(D,2)
 //	sigreader       signature.Parse(sig).Reader().Read over Sig(D,2) x Val
 //	reflect-decode  encoding.NewDecoder(..).Decode(*T) over Sig(D,2) x Val
+//	stub            generated argument decoders reached through Receive of the
+//	                LogManager/LogProvider/LogListener stubs and the generic
+//	                Object actions, with a recording channel (see stubs.go)
 //	fixed           object.ReadMetaObject, object.ReadObjectReference,
 //	                directory.ReadServiceInfo, bus.ReadCapabilityMap over
 //	                boundary values of their types and the real meta-objects
@@ -555,14 +558,14 @@ func main() {
 		rule := "corpus x every cut position 0 <= k < len(e) x end-of-stream modes {data+EOF, EOF separate} (newvalue in quick: data+EOF only; messages also 1 byte per read): " +
 			"messages (8 types x payload 0,1,5,40); dynamic values (13 constructors x Val, value lists of depth <= 2, opaque composites of Sig(D,2) without o plus 5 fixed signatures containing o: all of Val for depth-1 signatures, " +
 			"distinguished+zero value deeper (thorough: all of Val)); typed data of Sig(D,2) through the signature reader and through the reflection decoder (all of Val for depth-1 signatures, distinguished+zero value deeper; thorough: all of Val); " +
-			"MetaObject / ObjectReference / ServiceInfo / CapabilityMap boundary values and real meta-objects through their generated readers. " +
+			"MetaObject / ObjectReference / ServiceInfo / CapabilityMap boundary values and real meta-objects through their generated readers; argument tuples of every method of three generated stubs through Receive. " +
 			"evaluations counts decoder runs. A case class is (decoder, signature shape or decoder field path, element kind and part containing the first missing byte, outcome); " +
 			"distinct_nontrivial counts the distinct classes executed"
 		extra := map[string]interface{}{"depth": depth}
 		assumptions := []string{
 			"encodings are produced by the reference model written from doc/about-qimessaging.md",
 			"no strict prefix of a valid encoding is itself a complete encoding (every decoder consumes exactly what it needs), so no cut position is excluded",
-			"the generated argument decoders reached through stub Receive (Object, ServiceDirectory) are not part of this corpus",
+			"generated argument decoders are reached through Receive of the bus/logger stubs and the generic Object actions; the ServiceDirectory stub needs an implementor with an unexported method and is not driven",
 			"a panic on a truncated input is filed as a violation with the clause 'panic' (it is not an error report)",
 			"a decode that does not return within the hang limit (5 executions) is reported as a violation with the clause 'hang' and ends the enumeration",
 		}
@@ -570,6 +573,7 @@ func main() {
 	}
 	run.SetAbortFinish(15*time.Second, finish)
 	familyMessages()
+	familyStubs()
 	familyFixed()
 	familyTyped(depth, run.Thorough())
 	familyValues(depth, run.Thorough())
